@@ -2,6 +2,8 @@ package props
 
 import (
 	"fmt"
+	"go/constant"
+	"go/token"
 	"go/types"
 	"math/big"
 	"strings"
@@ -116,15 +118,33 @@ func buildRules(c *an.Ctx, fn *ssa.Function) {
 		c.Proved("PRED", fn, rng.Pos(), key, "the builder builds exactly for aligned offsets equal to offset or offset+2016 (misaligned, archived and future weeks are refused)", fmt.Sprintf("%d cells compared; guards: %s", pts, factsText(rel)))
 	}
 	// x: phi(0, 2016) with 2016 on the tso == off+2016 edge
+	// (edges that cannot have been taken when the record loop is reached - the error ways of an inlined or single-exit
+	// selector - do not count)
 	var xPhi *ssa.Phi
+	var xFeasible []bool
 	for _, b := range fn.Blocks {
 		for _, in := range b.Instrs {
-			if ph, ok := in.(*ssa.Phi); ok && len(ph.Edges) == 2 {
-				a, _ := fi.Term(ph.Edges[0]).IsConst()
-				b2, _ := fi.Term(ph.Edges[1]).IsConst()
-				if (a == "0" && b2 == "2016") || (a == "2016" && b2 == "0") {
-					xPhi = ph
+			ph, ok := in.(*ssa.Phi)
+			if !ok {
+				continue
+			}
+			feas := fi.FeasiblePhiEdges(ph, rng)
+			n0, n2016, other := 0, 0, 0
+			for i, e := range ph.Edges {
+				if !feas[i] {
+					continue
 				}
+				switch v, _ := fi.Term(e).IsConst(); v {
+				case "0":
+					n0++
+				case "2016":
+					n2016++
+				default:
+					other++
+				}
+			}
+			if n0 >= 1 && n2016 >= 1 && other == 0 {
+				xPhi, xFeasible = ph, feas
 			}
 		}
 	}
@@ -133,6 +153,9 @@ func buildRules(c *an.Ctx, fn *ssa.Function) {
 		return
 	}
 	for k, e := range xPhi.Edges {
+		if !xFeasible[k] {
+			continue
+		}
 		v, _ := fi.Term(e).IsConst()
 		pred := xPhi.Block().Preds[k]
 		ef := fi.EdgeFacts(pred, xPhi.Block())
@@ -473,9 +496,91 @@ func rotateRules(c *an.Ctx, cg contigResult) {
 			}, func(t *an.Term) *an.Term { return fi.InstantiateTerm(t, hc) })
 		}
 	}
-	c.Count("ROTATE", len(shifts))
+	// the same shift written slot by slot: for i := 0; i < 2016; i++ { a[i] = a[i+2016]; a[i+2016] = zero }
+	elemForm := map[string]bool{}
+	shiftStores := map[*ssa.Store]bool{}
+	defer func() {
+		// the rotation function writes the report and rate arrays only by the shift
+		for _, b := range rot.Blocks {
+			for _, in := range b.Instrs {
+				st, ok := in.(*ssa.Store)
+				if !ok || shiftStores[st] {
+					continue
+				}
+				if at := fi.Term(st.Addr); at.K != an.KIA && at.K != an.KFA {
+					continue
+				}
+				if f, ok := fi.RefClass(st.Addr).FieldOf("GCAServer"); ok && (f == "equipmentReports" || f == "equipmentImpactRate") && len(fi.RefClass(st.Addr).Path) >= 3 {
+					c.Violated("ROTATE", rot, st.Pos(), an.KeyOf(rot, "only-the-shift:"+f), "the rotation writes a slot of "+f+" other than by moving the second week down and blanking it", "store to "+short(fi.Term(st.Addr).Key()))
+				}
+			}
+		}
+	}()
+	for _, field := range []string{"equipmentReports", "equipmentImpactRate"} {
+		var down, blank *ssa.Store
+		var loopOf *natLoop
+		for _, b := range rot.Blocks {
+			for _, in := range b.Instrs {
+				st, ok := in.(*ssa.Store)
+				if !ok {
+					continue
+				}
+				at := fi.Term(st.Addr)
+				if at.K != an.KIA {
+					continue
+				}
+				if f, ok := fi.RefClass(st.Addr).FieldOf("GCAServer"); !ok || f != field {
+					continue
+				}
+				l := innermostLoopOf(rot, st.Block())
+				if l == nil {
+					continue
+				}
+				li, ok := countingLoop(fi, l)
+				if !ok || !(li.trip.k == 2016 && len(li.trip.co) == 0) {
+					continue
+				}
+				idx := linearize(at.A[1])
+				rest, ci := idx.without(li.key)
+				if ci != 1 || len(rest.co) != 0 {
+					continue
+				}
+				off := rest.k + li.off // index = i + off with i = 0, 1, ...
+				vt := fi.Term(st.Val)
+				switch {
+				case off == 0:
+					// a[i] = a[i+2016]
+					if vt.K == an.KLoad && vt.A[0].K == an.KIA && vt.A[0].A[0].Key() == at.A[0].Key() {
+						r2, c2 := linearize(vt.A[0].A[1]).without(li.key)
+						if c2 == 1 && len(r2.co) == 0 && r2.k+li.off == 2016 {
+							down, loopOf = st, l
+						}
+					}
+				case off == 2016:
+					// a[i+2016] = zero value
+					if isZeroValueTerm(vt, st.Val) {
+						blank = st
+					}
+				}
+			}
+		}
+		if down != nil && blank != nil {
+			shiftStores[down], shiftStores[blank] = true, true
+			ok := loopOf.everyIteration(down.Block()) && loopOf.everyIteration(blank.Block()) && len(loopOf.earlyExits()) == 0 &&
+				fi.Term(down.Addr).A[0].Key() == fi.Term(blank.Addr).A[0].Key() &&
+				an.Dominates(down, blank) && an.Held(lf.StateAt(down, "GCAServer.mu")) && an.Held(lf.StateAt(blank, "GCAServer.mu")) && an.Dominates(appendSt, down)
+			elemForm[field] = true
+			c.Check(ok, "ROTATE", rot, down.Pos(), an.KeyOf(rot, "shift:"+field),
+				"for every device and every i in 0..2015, a[i] = a[i+2016] precedes a[i+2016] = zero on the same array, on every pass of the slot loop, under the lock, after the week was archived: every slot's value moves down unchanged, nothing is lost, shifted or duplicated ("+field+")",
+				"slot-by-slot form of the shift")
+		}
+	}
+	c.Count("ROTATE", len(shifts)+2*len(elemForm))
 	c.Floor("ROTATE", 2)
 	for _, field := range []string{"equipmentReports", "equipmentImpactRate"} {
+		if elemForm[field] {
+			continue
+		}
 		var down, blank *shift
 		for i := range shifts {
 			s := &shifts[i]
@@ -541,6 +646,33 @@ func rotateRules(c *an.Ctx, cg contigResult) {
 	c.Check(an.Held(lf.StateAt(appendSt, "GCAServer.mu")) && an.Held(lf.StateAt(offsetSt, "GCAServer.mu")) &&
 		fi.VersionAt(appendSt, an.Class{Root: "T:GCAServer", Path: []string{"mu"}}) == fi.VersionAt(offsetSt, an.Class{Root: "T:GCAServer", Path: []string{"mu"}}),
 		"ROTATE", rot, rot.Pos(), an.KeyOf(rot, "one-section"), "archive, shift and advance happen in one critical section (no observer sees a half-rotated window)", "no lock operation between the append and the offset store")
+}
+
+// isZeroValueTerm: the stored value is the zero value of its type (0, 0.0, or an empty composite literal).
+func isZeroValueTerm(t *an.Term, v ssa.Value) bool {
+	if k, ok := v.(*ssa.Const); ok {
+		if k.Value == nil {
+			return true // zero value of an aggregate / nil
+		}
+		if k.Value.Kind() == constant.Int || k.Value.Kind() == constant.Float {
+			return constant.Sign(k.Value) == 0
+		}
+		return false
+	}
+	// glow.EquipmentReport{} : a load of a fresh local that is never written
+	if ld, ok := v.(*ssa.UnOp); ok && ld.Op == token.MUL {
+		if al, ok := ld.X.(*ssa.Alloc); ok && al.Referrers() != nil {
+			for _, r := range *al.Referrers() {
+				switch r.(type) {
+				case *ssa.UnOp, *ssa.DebugRef:
+				default:
+					return false
+				}
+			}
+			return true
+		}
+	}
+	return false
 }
 
 // statsSaverRule: the function that appends an archived week to allDeviceStats.dat writes the record it was given:
